@@ -10,7 +10,7 @@ def main():
     replay = sys.argv[sys.argv.index("--replay") + 1] if "--replay" in sys.argv else None
     ck = V.Check("C01", tier)
     rng = ck.rng
-    ck.proof_leg(["Extract/Extract_bounds.vo", "Extract/Extract_envelope.vo"])
+    ck.proof_leg(["Extract/Extract_bounds.vo", "Extract/Extract_envelope.vo", "Extract/Extract_lfo.vo"])
     drv = {"asan+ubsan": V.build_driver("c01_drv", ["c01_drv.c"]), "msan": V.build_driver("c01_drv", ["c01_drv.c"], variant="msan")}
     model = V.ocaml_build("bounds")
     env = V.san_env({"MSAN_OPTIONS": "exitcode=86:halt_on_error=1"})
@@ -146,6 +146,33 @@ def main():
             else: ck.nontrivial(("env", l))
         if rc.returncode != 0: ck.violation({"engine": "envelope", "broken": "sanitizer report / crash in the envelope functions", "stderr": rc.stderr[-1500:]}, key="c01-envelope-crash")
         stats["envelope_cases"] = len(lines); stats["envelope_disagreements"] = ne
+    # ---- LFOs and the random source: Model/Lfo.v against src/lfo.c / src/rng.c called directly, on random operation sequences
+    if not replay or json.load(open(replay)).get("engine") == "lfo":
+        lmodel = V.ocaml_build("lfo"); ldrv = V.build_driver("lfo_drv", ["lfo_drv.c"])
+        def lcase():
+            ops = []
+            for _ in range(rng.randrange(1, 40)):
+                k = rng.random()
+                if k < 0.3: ops.append("U")
+                elif k < 0.35: ops.append("P")
+                elif k < 0.45: ops.append("D%d" % rng.choice((0, 1, 15, 255, -3, rng.randrange(-1000, 1000))))
+                elif k < 0.6: ops.append("R%d" % rng.choice((0, 1, 4, 63, 64, 65, -1, -64, rng.randrange(-300, 300), 100000, -100000)))
+                elif k < 0.7: ops.append("W%d" % rng.choice((0, 1, 2, 3, 669, 4, 7, -1, rng.randrange(0, 4))))
+                else: ops.append("G%d" % rng.randrange(2))
+            return "%d %d | %s" % (rng.randrange(4), rng.choice((0, 1, rng.randrange(1 << 32))), " ".join(ops))
+        llines = [json.load(open(replay))["case"]] if replay else [lcase() for _ in range(20000 if tier == "quick" else 400000)]
+        linp = "\n".join(llines) + "\n"
+        lm = V.run([lmodel], inp=linp, timeout=3000).stdout.split("\n")
+        lrc = V.run([ldrv], inp=linp, env=V.san_env(), timeout=3000); lc = lrc.stdout.split("\n"); nl = 0
+        for l, m, c in zip(llines, lm, lc):
+            ck.count()
+            if "OOB" in m: raise V.BuildError("Model/Lfo.v reads outside sine_wave[] on a reachable LFO state: theorem lfo_table_access_in_bounds would be false (%s)" % l[:100])
+            if m.strip() != c.strip():
+                nl += 1
+                if nl <= 3: ck.violation({"engine": "lfo", "case": l, "expected_model": m, "got_impl": c, "broken": "correspondence: Model/Lfo.v vs src/lfo.c / src/rng.c"}, key="c01:lfo")
+            else: ck.nontrivial(("lfo", l[:40]))
+        if lrc.returncode != 0: ck.violation({"engine": "lfo", "broken": "sanitizer report / crash in src/lfo.c", "stderr": lrc.stderr[-1500:]}, key="c01-lfo-crash")
+        stats["lfo_cases"] = len(llines); stats["lfo_disagreements"] = nl
     ck.engine_stat("bounds", **stats)
     ck.cov["rule"] = ("corpus modules, their field-mutated / truncated / bit-flipped variants and the fuzzer regression inputs of test-dev/data/f, each through one of the four test entry points and the matching load entry point; every module that loads "
                       "is dumped and then driven through two player cycles under seeded output configurations (6 rates x 5 formats x 3 interpolators, voice limits) with 25-85 calls each of play_frame / play_buffer / set_position / next / prev / set_row / "
